@@ -146,10 +146,33 @@ class Built:
         self.cache = cache
         self.dom = dom
         self.w0 = w0
+        self.ctor_depth = 0
 
 
-def build(cfg, entropy_rng, *, faults=True, entropy_override=None):
-    """Construct the Brownian object described by cfg (through the public constructors only)."""
+EVENTS0 = 6_000_000      # most expensive legitimate call measured: ~6e5 call events (refinement through a warm-up chain)
+EVENTS_PER_NODE = 1000    # legitimate tree construction: ~30 call events per designed leaf
+MAX_DESIGNED = 8192
+
+
+def designed_nodes_hint(cfg):
+    if cfg["dt"] is None or cfg["halfway"]:
+        return 0.0
+    span = xf(cfg["t1"]) - xf(cfg["t0"])
+    return span / (0.8 * xf(cfg["dt"]) * designed_c(cfg))
+
+
+def build(cfg, entropy_rng, *, faults=True, entropy_override=None, monitor=True):
+    """Construct the Brownian object described by cfg (through the public constructors only). The constructor runs
+    under the deterministic step budget (a constructor that never returns is a violation, class 'budget')."""
+    if monitor:
+        budget = int(EVENTS0 + EVENTS_PER_NODE * min(designed_nodes_hint(cfg), 4 * MAX_DESIGNED))
+        with seams.CallMonitor(budget) as m:
+            try:
+                b = build(cfg, entropy_rng, faults=faults, entropy_override=entropy_override, monitor=False)
+            except SimBudgetExceeded as e:
+                raise Violation("budget", {"where": "constructor", "msg": str(e)}, "ctor")
+        b.ctor_depth = m.max_depth
+        return b
     import torchsde
     t0, t1 = xf(cfg["t0"]), xf(cfg["t1"])
     size = tuple(cfg["size"])
@@ -254,7 +277,20 @@ def _q(ta, tb, U=False, A=False, tag=None, og=False):
 
 
 DEFAULT_MIX = {"uniform": 4, "sweep": 2, "adaptive": 2, "cluster": 2, "nested": 1, "tiny": 1, "requery": 3,
-               "whole": 0.5, "point": 0.7, "zero": 0.5, "triple": 3, "offgrid": 0.7}
+               "whole": 0.5, "point": 0.7, "zero": 0.5, "triple": 3, "offgrid": 0.7, "dyadic": 1.5}
+
+
+def _dyadic(rng, cfg, dom):
+    """A point dom0 + span * j / 2^k (k <= 6), incl. both ends: the places where a dyadic tree has single nodes."""
+    k = rng.choice([0, 1, 1, 2, 2, 3, 4, 6])
+    j = rng.randrange(0, 2 ** k + 1)
+    x = dom[0] + (dom[1] - dom[0]) * j / 2 ** k
+    if j == 2 ** k:
+        x = dom[1]
+    gd = cfg.get("gd")
+    if gd is not None:
+        x = min(max(round(x, gd), dom[0]), dom[1])
+    return x
 
 
 def gen_ops(rng, cfg, dom, n_target, mix=None):
@@ -362,7 +398,11 @@ def gen_ops(rng, cfg, dom, n_target, mix=None):
         elif k == "point":
             if cfg["front"] == "reverse":
                 continue  # ReverseBrownian has no point form (tb=None is not supported by it)
-            ops.append({"op": "point", "t": fx(_t(rng, cfg, dom))})
+            t = _dyadic(rng, cfg, dom) if rng.random() < 0.5 else _t(rng, cfg, dom)
+            ops.append({"op": "point", "t": fx(t)})
+        elif k == "dyadic":
+            a, b = ordered(_dyadic(rng, cfg, dom), _dyadic(rng, cfg, dom))
+            ops.append(_q(a, b, U, A, tag="dyadic"))
         elif k == "zero":
             x = _t(rng, cfg, dom)
             ops.append(_q(x, x, U, A, tag="zero"))
@@ -452,9 +492,9 @@ def designed_c(cfg):
 class BMExec:
     """Executes ops against a Built object, recording every answer in the event log."""
 
-    MAX_DESIGNED = 8192
+    MAX_DESIGNED = MAX_DESIGNED
 
-    def __init__(self, built: Built, log: EventLog, monitor_budget=None):
+    def __init__(self, built: Built, log: EventLog, monitor_budget="auto"):
         self.b = built
         self.log = log
         self.n_len = 0
@@ -484,7 +524,8 @@ class BMExec:
         try:
             try:
                 if self.monitor_budget is not None:
-                    with seams.CallMonitor(self.monitor_budget) as mon:
+                    budget = self.auto_budget() if self.monitor_budget == "auto" else self.monitor_budget
+                    with seams.CallMonitor(budget) as mon:
                         out = b.front(ta, tb, return_U=U, return_A=A)
                     self.max_depth = max(self.max_depth, mon.max_depth)
                     self.max_events = max(self.max_events, mon.events)
@@ -520,6 +561,20 @@ class BMExec:
         self.log.add("ret", idx, fx(ta), fx(tb), U, A, tdig(W), tdig(Uo), tdig(Ao))
         return res
 
+    def auto_budget(self):
+        """Call-event budget of one service call: EVENTS0 + EVENTS_PER_NODE * N_designed (hang detector, >= 10x above
+        the most expensive legitimate call; see DESIGN C07)."""
+        cfg = self.b.cfg
+        if cfg["halfway"]:
+            nd = 0.0
+        elif cfg["dt"] is not None:
+            nd = self.span / (0.8 * xf(cfg["dt"]) * self.c)
+        elif self.n_len >= 1:
+            nd = self.span / (0.8 * (self.sum_len / self.n_len) * self.c)
+        else:
+            nd = 0.0
+        return int(EVENTS0 + EVENTS_PER_NODE * min(nd, 4 * MAX_DESIGNED))
+
     def point(self, t, faults=None, idx=None):
         b = self.b
         if self.guard and b.dom[0] < t:
@@ -531,7 +586,14 @@ class BMExec:
         b.plan.begin_op(faults)
         try:
             try:
-                out = b.front(t)
+                if self.monitor_budget is not None:
+                    with seams.CallMonitor(self.auto_budget()) as mon:
+                        out = b.front(t)
+                    self.max_depth = max(self.max_depth, mon.max_depth)
+                else:
+                    out = b.front(t)
+            except SimBudgetExceeded as e:
+                raise Violation("budget", {"t": fx(t), "msg": str(e)}, idx)
             except (HarnessError, Violation, PassThrough):
                 raise
             except Exception as e:  # noqa
